@@ -132,9 +132,7 @@ func c15() {
 		} else {
 			c.Patterns = ignorex.DockerListForTree(rng, c15Names, c.Tree.SortedPaths(), 5)
 		}
-		if i < 40 || i%50 == 0 {
-			fmt.Printf("C15 case %d: patterns=%q entries=%d\n", i, c.Patterns, len(c.Tree))
-		}
+		fmt.Printf("C15 case %d: patterns=%q tree=%q\n", i, c.Patterns, c.witness()["tree"])
 		r.Eval(1)
 
 		dock, err := ignorex.NewDocker(c.Patterns)
@@ -255,7 +253,7 @@ func c15() {
 			describe := func() map[string]any {
 				w := c.witness()
 				w["normalized_patterns"] = dock.Lines
-				w["ancestor"] = gen.Describe(ancestor)
+				w["ancestor"] = describeEntry(ancestor)
 				w["real_synchronized"] = ignorex.DescribeSet(real)
 				w["docker_reference"] = ignorex.DescribeSet(wantDocker)
 				w["documented_model"] = ignorex.DescribeSet(wantDocumented)
@@ -335,7 +333,13 @@ func c15() {
 	r.Assume("pattern grammar restricted to what both sides define: no backslash, no comment lines, '**' only as a whole segment")
 	r.Assume("a directory excluded by the reference and not descended by it is expected untracked whatever the ancestor holds (the property's 'only if')")
 	r.Assume("disagreements explained by Mutagen's documented algorithm (path-only matching, one inherited mask) are reported under the signature rule=docker-parent-inheritance; any other disagreement is rule=differs-from-documented-algorithm")
-	r.Finish("seeded random (.dockerignore list, disk tree) pairs, each reified once with a nil and once with a populated ancestor; a pair is non-trivial if the Docker reference includes at least one leaf and excludes at least one path; distinct = (patterns, exclusion patterns, descended excluded directories bucket, included leaves bucket, excluded paths bucket, known disagreement present)", 25)
+	floor := 25
+	if r.Counter("cases_with_descended_excluded_directory") < 20 || r.Counter("cases_with_nontrivial_included_set") < 100 ||
+		r.Counter("excluded_descended_directories_with_ancestor_directory") < 5 {
+		fmt.Println("ERROR: C15 observed too few cases with re-inclusion below excluded directories / ancestor-reified directories")
+		floor = 1 << 30
+	}
+	r.Finish("seeded random (.dockerignore list, disk tree) pairs, each reified once with a nil and once with a populated ancestor; a pair is non-trivial if the Docker reference includes at least one leaf and excludes at least one path; distinct = (patterns, exclusion patterns, descended excluded directories bucket, included leaves bucket, excluded paths bucket, known disagreement present)", floor)
 }
 
 func trackedWord(t bool) string {
